@@ -195,13 +195,16 @@ def run(tier, work, replay=None):
                 owners.append(feats)
     # ---- (f) fragment closure over FragmentsPkg cases
     from .c08 import cfg as fcfg, cases_from, render_case
-    fr = run_tlc("FragmentsPkg_MC", fcfg(3, 1, 2, "NoDeviations", export=2500 if q else 400, invs=["DocIsClosure"], perms="TwoPerms"), work.sub("tlcf"), workers=8, timeout=3000)
+    fr = run_tlc("FragmentsPkg_MC", fcfg(3, 1, 1, "NoDeviations", export=1200 if q else 150, invs=["DocIsClosure"], perms="TwoPerms"), work.sub("tlcf"), workers=8, timeout=3000)
     tlc_must_pass(fr, "FragmentsPkg (DocIsClosure)")
     v.add_tlc(fr, "FragmentsPkg exhaustive NF=3 (DocIsClosure)")
+    fr2 = run_tlc("FragmentsPkg_MC", fcfg(2, 2, 1, "NoDeviations", export=400 if q else 60, invs=["DocIsClosure"], perms="TwoPerms"), work.sub("tlcf2"), workers=8, timeout=3000)
+    tlc_must_pass(fr2, "FragmentsPkg (DocIsClosure) NF=2, two operations")
+    v.add_tlc(fr2, "FragmentsPkg exhaustive NF=2 x 2 operations (DocIsClosure)")
     fdev = run_tlc("FragmentsPkg_MC", fcfg(3, 1, 1, "OldClosure", invs=["DocIsClosure"], perms="TwoPerms"), work.sub("tlcf"), workers=4, timeout=3000)
     if "DocIsClosure" not in fdev.invariant_violated:
         raise Machinery("anti-vacuity: the old closure computation does not violate DocIsClosure")
-    fcases = cases_from(fr)
+    fcases = cases_from(fr) + cases_from(fr2)
     uschema = build_schema(gamma.SDL)
 
     def fone(ci):
